@@ -19,6 +19,7 @@
 (*   set      the set itself: shapes of the text, the keys member (absent, null, string, *)
 (*            object, empty, non-object elements), several keys, one refused key among   *)
 (*            good ones, duplicate and unknown members, member order                    *)
+(*   mix      seeded random combinations across all of the above, 1..3 keys per set      *)
 (* Key material is not known to TLC when it plans: members that depend on it are       *)
 (* PLACEHOLDERS [k |-> "mat", f |-> field, c |-> class]; JwkSubst says what octets a     *)
 (* class stands for given the material of the run (the driver implements the same        *)
@@ -291,7 +292,35 @@ BasicCases ==
   \cup {One("basic", "pass", <<a, "full">>, MsOf(a), [Def(a) EXCEPT !.use = JS("sig"), !.ops = OpsVal("verify"), !.kid = KidVal("plain")])
         : a \in JwkSigAlgs}
 
-ImportBlocks == {"basic", "meta", "usage", "ec", "eczero", "rsa", "private", "set"}
+\* ---- mix: random combinations ACROSS the blocks, 1..3 keys per set (TLC's RandomElement, seeded by the run's seed).
+\* Every member keeps its passing value with probability 9/10, so that sets with a single defect - and accepted sets
+\* with several keys - are frequent.
+MixN == IF "VERIF_MIX" \in DOMAIN IOEnv THEN atoi(IOEnv.VERIF_MIX) ELSE 1000
+Keep(good, S) == IF RandomElement(1..10) = 1 THEN RandomElement(S) ELSE good
+EsOf(crv) == CASE crv = "P-256" -> "ES256" [] crv = "P-384" -> "ES384" [] crv = "P-521" -> "ES512"
+MixJwk(crv) ==
+  LET a == RandomElement({EsOf(crv)} \cup JWSRsAlgs \cup JWSPsAlgs)
+      ec == a \in JWSEcAlgs
+      pv == IF RandomElement(1..20) = 1 THEN <<RandomElement({PrivNames[i] : i \in 1..Len(PrivNames)})>> ELSE <<>>
+  IN Jwk([NoMembers EXCEPT
+            !.kty = KtyVal(Keep(IF ec THEN "EC" ELSE "RSA", KtyNames)),
+            !.alg = AlgVal(Keep(a, AlgNames)),
+            !.crv = IF ec THEN CrvVal(Keep(crv, CrvNames)) ELSE CrvVal(Keep("absent", CrvNames)),
+            !.use = UseVal(Keep(RandomElement({"absent", "sig"}), UseNames)),
+            !.ops = OpsVal(Keep(RandomElement({"absent", "verify"}), OpsNames)),
+            !.kid = KidVal(Keep(RandomElement({"absent", "plain", "utf8"}), KidNames)),
+            !.x = IF ec THEN Mat("x", Keep("good", CoordNames)) ELSE JAbsent,
+            !.y = IF ec THEN Mat("y", Keep("good", CoordNames)) ELSE JAbsent,
+            !.n = IF ec THEN JAbsent ELSE Mat("n", Keep("good", ModNames)),
+            !.e = IF ec THEN JAbsent ELSE ExpVal(Keep("F4", ExpNames)),
+            !.extra = [i \in 1..Len(pv) |-> JMem(pv[i], PrivVal(pv[i], "str"))]])
+MixCase(i) ==
+  LET crv == RandomElement(JwkCurves)
+      shape == Keep("object", JShapes)
+  IN Case("mix", "pass", <<i>>, crv, shape, SetOf([q \in 1..(RandomElement(1..3)) |-> MixJwk(crv)]))
+MixCases == {MixCase(i) : i \in 1..MixN}
+
+ImportBlocks == {"basic", "meta", "usage", "ec", "eczero", "rsa", "private", "set", "mix"}
 ImportCases(blk) ==
   CASE blk = "basic"   -> BasicCases
     [] blk = "meta"    -> {MetaCase(p) : p \in MetaParams}
@@ -301,6 +330,7 @@ ImportCases(blk) ==
     [] blk = "rsa"     -> {RsaCase(p) : p \in RsaParams}
     [] blk = "private" -> {PrivCase(p) : p \in PrivParams}
     [] blk = "set"     -> SetCases
+    [] blk = "mix"     -> MixCases
 
 \* ------------------------------------------------------------------ EXPORT: abstract keysets
 \* key [kind, alg, strat, idc, kidc, status, priv, mat];  mat: "m1" | "m2" (ordinary material of the run),
